@@ -1,5 +1,6 @@
 """C17 — the serde bridge round-trips the serde data model with the documented representation."""
 from verifkit.runner import Stream
+from verifkit import gen
 from verifkit.props import serde_types as T
 
 ID = "C17"
@@ -216,13 +217,34 @@ def streams(rng, tier):
     s4 = narrow_stream(rng, tier)
     # ONE Serializer / Deserializer for three values in a row: value, Some(value), value
     r3 = ["rt3" + o[2:] for o in rt_ops[::3] if len(o) < 3000]
+    # borrowing field types in positions that go through serde's Content buffer (untagged enum, flattened struct, internally tagged enum): a
+    # definite-length string reaches them as a borrow from the input, whatever stands around it
+    bops = []
+    for txt in (b"", b"a", b"hi", "\u00e9\u20ac".encode(), b"x" * 23, b"y" * 24, b"z" * 300):
+        t = gen.head(3, len(txt)) + txt
+        bops.append(f"sdeb untagged {t.hex()} #D=ok~S:{gen.hexb(txt)}~{len(t)}")
+        doc = b"\xa2\x62id\x07\x64name" + t
+        bops.append(f"sdeb flatten {doc.hex()} #D=ok~7,{gen.hexb(txt)}~{len(doc)}")
+        doc = b"\xbf\x64name" + t + b"\x62id\x18\xff\xff"
+        bops.append(f"sdeb flatten {doc.hex()} #D=ok~255,{gen.hexb(txt)}~{len(doc)}")
+        doc = b"\xa2\x61t\x61V\x61s" + t
+        bops.append(f"sdeb itag {doc.hex()} #D=ok~V:{gen.hexb(txt)}~{len(doc)}")
+    for bs in (b"\xff", b"\xc3\x28", b"\x80" * 24):
+        t = gen.head(2, len(bs)) + bs
+        bops.append(f"sdeb untagged {t.hex()} #D=ok~B:{bs.hex()}~{len(t)}")
+    bops += ["sdeb untagged 05 #D=ok~N:5~1", "sdeb untagged 1bffffffffffffffff #D=ok~N:18446744073709551615~9", "sdeb itag a261746157616e05 #D=ok~W:5~8",
+             "sdeb untagged f5 #D=err", "sdeb flatten a162696407 #D=err"]
+    s6 = Stream("borrowed-behind-the-content-buffer", "hserde", bops, model_ops=["nop"] * len(bops),
+                judge=lambda op, impl, model, spec: "ok" if impl == [a[3:] for a in op.split(" ") if a.startswith("#D=")][0].replace("~", " ") else "violation",
+                rule="sdeb: &str / &[u8] fields of an untagged enum, a flattened struct and an internally tagged enum deserialised through the bridge: the value, borrowed from the input")
+    s6.shrinkable = False
     s5 = Stream("one-serializer-three-values", "hserde", r3, model_ops=["rt" + o[3:] for o in r3], judge=judge_rt3,
                 nontrivial=lambda op, impl: len(impl.split(" ")) == 5,
                 rule="rt3 <type> <value>: value, Some(value), value through ONE Serializer and back through ONE Deserializer: three times the bytes of the "
                      "value alone (the model's `rt`), three times the value, the end position")
     for s in (s1, s2, s3, s4, s5):
         s.shrinkable = False
-    return [s1, s2, s3, s4, s5]
+    return [s1, s2, s3, s4, s5, s6]
 
 
 def f64_narrow_patterns(rng, tier):
@@ -295,6 +317,9 @@ def narrow_stream(rng, tier):
 
 
 def replay_streams(rp):
+    if (rp.get("original_op") or rp.get("op", "")).startswith("sdeb"):
+        o = rp.get("original_op") or rp["op"]
+        return [Stream("replay", "hserde", [o], model_ops=["nop"], judge=lambda op, impl, model, spec: "ok" if impl == [a[3:] for a in op.split(" ") if a.startswith("#D=")][0].replace("~", " ") else "violation")]
     op = rp.get("original_op") or rp["op"]
     if op.startswith("fnarrow"):
         s = Stream("replay", "hcore", [op], judge=judge_narrow)
